@@ -115,7 +115,7 @@ fn c12_judge(job: &HybJob, out: &RunOut) -> Vec<Complaint> {
             }
             continue;
         }
-        if cfg.admission == Admission::Reject && !sw {
+        if cfg.admits_nothing() && !sw {
             if let Some(e) = ws.first() {
                 v.push(("P.rejected-written", format!("k{} v{} was rejected by the admission filter but written (io{})", wr.key, wr.ver, e.io)));
             }
@@ -280,8 +280,8 @@ fn c12_jobs(tier: Tier) -> Vec<HybJob> {
     };
     for woi in [true, false] {
         for foc in [true, false] {
-            for admission in [Admission::Admit, Admission::Reject] {
-                if admission == Admission::Reject && !foc {
+            for admission in [Admission::Admit, Admission::Reject, Admission::ThrottleAll] {
+                if admission != Admission::Admit && !foc {
                     continue;
                 }
                 let mut cfg = HybCfg::small(woi, false);
@@ -304,7 +304,7 @@ fn c12_jobs(tier: Tier) -> Vec<HybJob> {
                         let bound = &(if prog.len() == 5 && *policy != Eager { 0 } else { *bound });
                         // From the empty cache, and from a state in which k1 lives on disk only.
                         for on_disk_start in [false, true] {
-                            if on_disk_start && (admission == Admission::Reject || !prog.iter().any(|o| matches!(o, HOp::Get { k: 1 } | HOp::Gof { k: 1, .. }))) {
+                            if on_disk_start && (admission != Admission::Admit || !prog.iter().any(|o| matches!(o, HOp::Get { k: 1 } | HOp::Gof { k: 1, .. }))) {
                                 continue;
                             }
                             jobs.push(HybJob {
@@ -381,7 +381,7 @@ fn c15_judge(job: &HybJob, out: &RunOut) -> Vec<Complaint> {
                 if !cfg.flush_on_close && !cfg.woi {
                     continue;
                 }
-                if oversize || left_before_close || cfg.admission == Admission::Reject {
+                if oversize || left_before_close || cfg.admits_nothing() {
                     continue;
                 }
                 match &l.res {
